@@ -7,6 +7,7 @@ import (
 	"fmt"
 	"os"
 	"strings"
+	"time"
 
 	"github.com/lidofinance/dc4bc/client/api/dto"
 	"github.com/lidofinance/dc4bc/client/services/node"
@@ -271,6 +272,7 @@ func c20(tier string, args []string) int {
 		cfgs = append(cfgs, ntPair{4, 3}, ntPair{4, 2})
 	}
 	var lastOM origMaterial
+	var lastRec *world.Recording
 	for _, nt := range cfgs {
 		if r.TimeUp() {
 			break
@@ -278,6 +280,7 @@ func c20(tier string, args []string) int {
 		rec := getRecording(r, nt.n, nt.t)
 		om := materialOf(rec, nt.t)
 		lastOM = om
+		lastRec = rec
 		reinitAndCheck(r, om, fmt.Sprintf("n=%d t=%d recorded ceremony", nt.n, nt.t), false, false)
 		reinitAndCheck(r, om, fmt.Sprintf("n=%d t=%d recorded ceremony, self-confirmations removed and re-added by the 0.1.4 adaptation", nt.n, nt.t), true, true)
 		omJ := om
@@ -323,6 +326,49 @@ func c20(tier string, args []string) int {
 			reinitAndCheck(r, omP, fmt.Sprintf("recorded ceremony with a junk opening proposal of another round id in the dump (variant %d)", vi+1), false, false)
 			c20KeyPrefix = ""
 			scen++
+		}
+	}
+	// more junk that every node of the original ceremony refused or ignored, each with and without
+	// the 0.1.4 adaptation: (1) a signing proposal posted by a stranger while the key generation
+	// was under way; (2) an unsigned deal line under participant 0's name before the deals phase;
+	// (3) a validly signed report of participant 1 that no round judges (a reconstruction failure
+	// report), dated in the year 2100, right after the opening proposal
+	if lastOM.Round != "" && lastRec != nil && len(lastOM.Log) > 4 {
+		insertAfter := func(k int, m storage.Message) []storage.Message {
+			out := append([]storage.Message{}, lastOM.Log[:k+1]...)
+			out = append(out, m)
+			return append(out, lastOM.Log[k+1:]...)
+		}
+		p1 := lastRec.W.Nodes[1]
+		far := time.Date(2100, 1, 1, 0, 0, 0, 0, time.UTC)
+		junks := []struct {
+			key  string
+			name string
+			log  []storage.Message
+		}{
+			{"junk-signing-start-in-dump/", "a stranger's signing proposal posted during the key generation", insertAfter(3, storage.Message{DkgRoundID: lastOM.Round, Event: "event_signing_start", SenderAddr: "mallory",
+				Data: world.MustJSON(requests.SigningBatchProposalStartRequest{BatchID: "junk-batch", ParticipantId: 0, CreatedAt: world.T0, SigningTasks: []requests.SigningTask{{MessageID: "j", File: "j", Payload: []byte("junk")}}})})},
+			{"junk-deal-line-in-dump/", "an unsigned deal line under participant 0's name before the deals phase", insertAfter(1, storage.Message{DkgRoundID: lastOM.Round, Event: "event_dkg_deal_confirm_received", SenderAddr: lastOM.Names[0], RecipientAddr: lastOM.Names[1],
+				Data: world.MustJSON(requests.DKGProposalDealConfirmationRequest{ParticipantId: 0, Deal: []byte("junk"), CreatedAt: world.T0})})},
+			{"unjudged-dated-report-in-dump/", "a signed reconstruction-failure report of participant 1 dated in 2100", insertAfter(0, world.SignedMessage(lastOM.Round, "signature_reconstruction_failed",
+				world.MustJSON(map[string]interface{}{"BatchID": "none", "ParticipantId": 1, "Error": "junk", "CreatedAt": far}), p1.Name, p1.KeyPair.Priv, ""))},
+		}
+		for _, j := range junks {
+			for _, adapted := range []bool{false, true} {
+				if r.TimeUp() {
+					break
+				}
+				omJ := lastOM
+				omJ.Log = j.log
+				label := "recorded ceremony with " + j.name + " in the dump"
+				if adapted {
+					label += ", self-confirmations removed and re-added by the 0.1.4 adaptation"
+				}
+				c20KeyPrefix = j.key
+				reinitAndCheck(r, omJ, label, adapted, adapted)
+				c20KeyPrefix = ""
+				scen++
+			}
 		}
 	}
 	// the restored machines are stopped and reopened (password expiry / shutdown) before and after
